@@ -47,6 +47,8 @@ type c20Case struct {
 	Fast bool `json:"fast"`
 	// Tiny: with Churn, a fresh connection for every 3000 bytes
 	Tiny bool `json:"tiny"`
+	// Drain: the proxy is told to shut down 300 ms into the transfer; the transfer is drained - under the same limit
+	Drain bool `json:"drain"`
 }
 
 const mib = 1 << 20
@@ -184,11 +186,23 @@ func c20Case1(seed int64, idx int, c *c20Case) (map[string]any, []map[string]any
 		fc.LogHTTP = "body"
 	}
 	fc.ProxyProto = c.Pp
+	if c.Drain {
+		fc.ShutdownTimeout = 30 * time.Second
+	}
 	f, err := startFwd(fc)
 	if err != nil {
 		fatal("start: %v", err)
 	}
 	defer f.stop()
+	if c.Drain {
+		drained := make(chan struct{})
+		go func() {
+			time.Sleep(300 * time.Millisecond)
+			f.stop() // returns when the transfer in flight has been drained
+			close(drained)
+		}()
+		defer func() { <-drained }()
+	}
 	burst := int64(0)
 	if c.Exp.Limited {
 		burst = int64(ratelimit.VerifBurst(int64(c.Exp.Rate) * mib))
